@@ -124,6 +124,6 @@ fn main() {
     let check = Check::new("C02", "exploration");
     check.rule("random 1-4 step sequence programs (both surface forms, constant and cross-alias filters incl. the expression-evaluator path, and/or/not, optional partition_by over int or string keys incl. missing key, optional .not clause with/without filter) rendered to VPL and loaded into the real Engine, against random streams of <=40 events (4 types, unique ids, small int or float v, string s); oracle = brute-force earliest-completion reference: emitted id tuples must equal the reference multiset (none missing, none extra, no duplicates); a match whose completing event itself satisfies the .not clause is not judged. One sentinel event per partition flushes runs waiting in the accept state. Non-trivial = >=2 start events with overlapping lifetimes and >=1 match.");
     check.assume("filters are evaluated by the harness only within one type (int/int, float/float, str/str), every referenced field present: type-mix semantics belong to C08/C09");
-    check.explore("earliest", strat, 20_000, 400_000, run);
+    check.explore("earliest", strat, 40_000, 400_000, run);
     check.finish();
 }
